@@ -3,6 +3,7 @@ package cisco
 import (
 	"bytes"
 	"fmt"
+	"maps"
 	"net/netip"
 	"path"
 	"slices"
@@ -158,8 +159,10 @@ func (p *parser) ParseConfig(data []byte, fName string) (
 }
 
 func (p *parser) checkReferences(lookup objLookup, isRaw bool) error {
-	for _, m := range lookup {
-		for _, cmdList := range m {
+	for _, prefix := range slices.Sorted(maps.Keys(lookup)) {
+		m := lookup[prefix]
+		for _, name := range slices.Sorted(maps.Keys(m)) {
+			cmdList := m[name]
 			check := func(c *cmd) error {
 				for i, name := range c.ref {
 					prefix := c.typ.ref[i]
